@@ -64,7 +64,7 @@ def validate(rep, pid, tier):
             names = json.loads('[' + ln.split('<<')[1].split('>>')[0] + ']')
     exe = lib.build('drv_status', ['drv_status.c'], config='regtree')
     w = lib.workdir(pid + 'rt')
-    alph = ['T1', 'T2'] if tier == 'quick' else ['T1', 'T2', 'T3', 'T4']
+    alph = ['T1', 'T2q'] if tier == 'quick' else ['T1', 'T2', 'T3', 'T4']
     for a in alph:
         r = lib.tlc('MCRegTree', 'MCRegTree_%s.cfg' % a, timeout=1500, xmx='8g')
         rep.add_tlc('MCRegTree_' + a, r, 'model checking of ScpiRegTree: TreeCoherent, MssCoherent, RisesHaveMss, FilterLatch, EventSticky, RiseAnnounced, MasksOnlyWritten, StandardAgreement (with ScpiStatus)')
